@@ -1160,6 +1160,35 @@ def m_sicd_ipp_start(p, r):
     return replace_in(p['buf'], do, do + dl, b'<IPPStart>%d</IPPStart>' % n, b'<IPPStart>%d</IPPStart>' % new)
 
 
+def m_sicd_corner_nan(p, r):
+    """one coordinate of GeoData/ImageCorners is NaN (xs:double admits it): the corners no longer place the image"""
+    so, sl, do, dl = des_of(p['buf'], b'SICD')
+    seg = p['buf'][do:do + dl]
+    m = re.search(rb'<ICP index="1:FRFC"><Lat>([^<]{3,})</Lat>', seg)
+    if m is None:
+        raise ValueError('first image corner not found')
+    new = b'NaN' + b' ' * (len(m.group(1)) - 3)
+    return p['buf'][:do + m.start(1)] + new + p['buf'][do + m.end(1):]
+
+
+def m_sicd_xml_corner_nan_no_validdata(p, r):
+    """stand-alone XML: the optional ValidData polygon removed from ImageData and GeoData alike (still a valid document), then one
+    corner coordinate set to NaN - only the corner rule itself can flag it"""
+    def edit(root, q):
+        for path in ('ImageData/ValidData', 'GeoData/ValidData'):
+            el = root.find(q(path))
+            if el is not None:
+                el.getparent().remove(el)
+        root.find(q('GeoData/ImageCorners')).findall(q('ICP'))[0].find(q('Lat')).text = 'NaN'
+    return xml_edit(p['meta'].to_xml_bytes(), edit)
+
+
+def m_sicd_chanindex_zero(p, r):
+    """ImageFormation/RcvChanProc/ChanIndex = 0: channel indices count from 1"""
+    so, sl, do, dl = des_of(p['buf'], b'SICD')
+    return replace_in(p['buf'], do, do + dl, b'<ChanIndex>1</ChanIndex>', b'<ChanIndex>0</ChanIndex>')
+
+
 def m_sicd_pixel_type(p, r):
     so, sl, do, dl = des_of(p['buf'], b'SICD')
     old = p['meta'].ImageData.PixelType.encode()
@@ -1229,6 +1258,11 @@ NITF_MUTATIONS = [
     dict(name='sicd_isubcat_both_bands', kind='sicd', rule='image segment bands have ISUBCAT (I, Q) / (M, P) (both codes altered)',
          lean='mutation_both_bands_falsify_sicdSegOk', apply=m_isubcat(True)),
     dict(name='sicd_numrows_vs_pixels', kind='sicd', rule='ImageData.NumRows agrees with the pixel data (image segment rows)', apply=m_sicd_numrows),
+    dict(name='sicd_corner_nan', kind='sicd', rule='GeoData/ImageCorners coordinates are finite (one NaN seeded; with and without ValidData)', apply=m_sicd_corner_nan),
+    dict(name='sicd_xml_corner_nan_without_validdata', kind='sicd', rule='GeoData/ImageCorners coordinates are finite (ValidData absent)', xml_file=True,
+         apply=m_sicd_xml_corner_nan_no_validdata),
+    dict(name='sicd_chanindex_zero', kind='sicd', rule='RcvChanProc/ChanIndex values lie in [1, number of receive channels]', apply=m_sicd_chanindex_zero,
+         applies=lambda p: b'<ChanIndex>1</ChanIndex>' in p['buf']),
     dict(name='sicd_ipp_set_start', kind='sicd', rule='Timeline/IPP/Set: IPPStart is the value of the set\'s IPPPoly at TStart (a rule inside an array entry)',
          apply=m_sicd_ipp_start, applies=lambda p: len(_sicd_ipp_sets(p)) > 0 and abs(int(_sicd_ipp_sets(p)[0].IPPStart)) < 10**6),
     dict(name='sicd_xml_required_element_removed', kind='sicd', rule='stand-alone XML validates against the schema', xml_file=True, apply=m_xml_file('sicd', 'CollectionInfo/CoreName')),
